@@ -75,8 +75,14 @@ def build(seed, cell, vig=False, wide=False, rear=False):
     mf = None
     if wide and ft == "angle":
         mf = rnd.uniform(8.0, 25.0)
+    reused = None
+    if seed % 6 == 2:
+        # the lens is entered on an Optic that held another lens before and was reset()
+        reused, _ = build_rear_stop(random.Random(seed + 1), ("EPD", "angle", True, False))
+        reused.reset()
     o, meta = G.random_lens(rnd, aperture=ap, field_type=ft, finite_object=not inf, max_field=mf,
-                            kinds=("standard", "standard", "even_asphere"), mirrors=(seed % 5 == 0))
+                            kinds=("standard", "standard", "even_asphere"), mirrors=(seed % 5 == 0), optic=reused)
+    meta["optic_reused_after_reset"] = reused is not None
     if tel:
         o.obj_space_telecentric = True
     if seed % 4 == 1:
